@@ -19,7 +19,7 @@ ASSUMPTIONS = [
     "tiny models (n<=6, d<=3, <=5 hidden units, <=3 clusters; n, d, K, hidden pairwise distinct) with learning rates 0.1..0.3 so that parameters move away from initialisation",
 ]
 FAMILIES = ["LinearModel", "RIM", "KernelRIM", "MLPModel", "SparseLinearModel", "SparseMLPModel", "CategoricalModel", "Douglas"]
-ML, CL, FACTOR = [(0, 1)], [(2, 3), (1, 4)], 0.7
+ML, CL, FACTOR = [(0, 1), (0, 3)], [(2, 3), (2, 4), (1, 4)], 0.7      # hubs on the same side of several pairs, a sample in both lists
 BLOCKS = {
     "LinearModel": ["W_", "b_"], "RIM": ["W_", "b_"], "KernelRIM": ["W_", "b_"],
     "MLPModel": ["W1_", "W2_", "b1_", "b2_"], "SparseLinearModel": ["W_", "b_"],
